@@ -6,6 +6,7 @@ import (
 	"fmt"
 	"os"
 	"reflect"
+	"strconv"
 	"strings"
 
 	"github.com/theory/sqljson/path"
@@ -35,6 +36,7 @@ func init() {
 	families["group9"] = famGroup9
 	families["group10"] = famGroup10
 	families["group11"] = famGroup11
+	families["pg"] = famPG
 }
 
 func mustDoc(text string, useNumber bool) any {
@@ -824,5 +826,86 @@ func famGroup11(g *gen, e *emitter, n int) {
 			continue
 		}
 		emitGroup(g.pick("", "strict "), p, q, mustDoc(g.docText(2, true), g.chance(0.3)), g.varsFor(false, true))
+	}
+}
+
+// ---- pg: the (path, json, options) triples of the repository's own PostgreSQL regression port,
+// read from /repo/path/exec/pg_test.go at run time; both number decodings ----
+func famPG(g *gen, e *emitter, n int) {
+	repo := os.Getenv("VERIF_REPO")
+	if repo == "" {
+		repo = "/repo"
+	}
+	data, err := os.ReadFile(repo + "/path/exec/pg_test.go")
+	if err != nil {
+		fmt.Fprintln(os.Stderr, "pg family:", err)
+		return
+	}
+	blocks := strings.Split(string(data), "\t\t\ttest:")
+	lit := func(s string) (string, bool) {
+		s = strings.TrimSpace(s)
+		if strings.HasPrefix(s, "`") {
+			if i := strings.Index(s[1:], "`"); i >= 0 {
+				return s[1 : 1+i], true
+			}
+			return "", false
+		}
+		if strings.HasPrefix(s, `"`) {
+			// find the closing quote of a Go interpreted string
+			for i := 1; i < len(s); i++ {
+				if s[i] == '\\' {
+					i++
+					continue
+				}
+				if s[i] == '"' {
+					if u, err := strconv.Unquote(s[:i+1]); err == nil {
+						return u, true
+					}
+					return "", false
+				}
+			}
+		}
+		return "", false
+	}
+	field := func(block, name string) (string, bool) {
+		i := strings.Index(block, "\n\t\t\t"+name+":")
+		if i < 0 {
+			return "", false
+		}
+		rest := strings.TrimSpace(block[i+len(name)+5:])
+		for _, pre := range []string{"js(", "jv("} {
+			rest = strings.TrimPrefix(rest, pre)
+		}
+		return lit(rest)
+	}
+	count := 0
+	for _, b := range blocks[1:] {
+		p, ok1 := field(b, "path")
+		j, ok2 := field(b, "json")
+		if !ok1 || !ok2 {
+			continue
+		}
+		var varsText string
+		if i := strings.Index(b, "WithVars(jv("); i >= 0 {
+			varsText, _ = lit(b[i+len("WithVars(jv("):])
+		}
+		useTZ := strings.Contains(b, "WithTZ()")
+		for _, num := range []bool{false, true} {
+			doc, err := decodeDoc(j, num)
+			if err != nil {
+				continue
+			}
+			var vars map[string]any
+			if varsText != "" {
+				if v, err := decodeDoc(varsText, num); err == nil {
+					vars, _ = v.(map[string]any)
+				}
+			}
+			e.emit(caseSpec{family: "pg", text: p, doc: doc, vars: vars, useTZ: useTZ})
+			count++
+		}
+	}
+	if count < 500 {
+		fmt.Fprintf(os.Stderr, "pg family: only %d cases extracted from pg_test.go\n", count)
 	}
 }
